@@ -1,15 +1,19 @@
 (* Corr/C18.v — correspondence for the HTTP and gRPC adapters (scripted in-memory transports). *)
-From FS Require Export Model.Adapter.
+From FS Require Export Model.Adapter Model.Ledger.
 
 Inductive case :=
   | CaseHTTP (id : Z) (script : list attempt_result) (client_level : bool) (attempts : Z) (instants : list Z)
              (status errcode : Z) (bodies_ok same_request values_seen deadline_seen body_readable both_ctx : bool)
              (opened closed : Z) (leak : bool)
   | CaseBody (id : Z) (kind : body_kind) (size : Z) (offset : nat) (is_error no_body each_complete : bool)
-  | CaseGRPC (id : Z) (codes : list Z) (calls : Z) (ret : Z) (args_ok md_seen reply_ok leak : bool).
+  | CaseGRPC (id : Z) (codes : list Z) (calls : Z) (ret : Z) (args_ok md_seen reply_ok leak : bool)
+  (* a core-library scenario run in a bubble followed by a virtual hour: did any goroutine remain blocked? *)
+  | CaseCore (id : Z) (kind : Z) (leak : bool)
+  (* the spawn sites found in the sources of this run *)
+  | CaseSites (id : Z) (sites : list site).
 
 Definition case_id (c : case) : Z :=
-  match c with CaseHTTP id _ _ _ _ _ _ _ _ _ _ _ _ _ _ _ | CaseBody id _ _ _ _ _ _ | CaseGRPC id _ _ _ _ _ _ _ => id end.
+  match c with CaseHTTP id _ _ _ _ _ _ _ _ _ _ _ _ _ _ _ | CaseBody id _ _ _ _ _ _ | CaseGRPC id _ _ _ _ _ _ _ | CaseCore id _ _ | CaseSites id _ => id end.
 
 (* the harness repeats the last scripted behaviour when the script is shorter than the number of attempts *)
 Definition pad (script : list attempt_result) : list attempt_result :=
@@ -66,6 +70,8 @@ Definition agrees (c : case) : bool :=
   | CaseGRPC _ codes calls ret args md reply leak =>
       let '(n, r) := grpc_calls (codes ++ repeat (last codes (-1)) 4) 2 0 in
       (calls =? n) && (ret =? r) && args && md && reply && negb leak
+  | CaseCore _ _ leak => negb leak
+  | CaseSites _ sites => sites_known sites && negb (Nat.eqb (List.length sites) 0)
   end.
 
 (* C18 on the implementation's observations alone *)
@@ -76,8 +82,7 @@ Definition checker18 (c : case) : bool :=
       (attempts =? k) && (status =? st) && (errcode =? ec)
       && forallb (fun p => snd p <=? fst p) (combine (diffs instants) ds)     (* waits at least the Retry-After *)
       && bodies && same && vals && dl && readable
-  | CaseBody _ _ _ _ _ _ _ => agrees c
-  | CaseGRPC _ _ _ _ _ _ _ _ => agrees c
+  | _ => agrees c
   end.
 
 (* C19 on the implementation's observations: nothing left behind; responses obtained but not returned are closed *)
@@ -87,6 +92,8 @@ Definition checker19 (c : case) : bool :=
       negb leak && (closed =? opened)      (* the harness closes the returned response's body itself *)
   | CaseGRPC _ _ _ _ _ _ _ leak => negb leak
   | CaseBody _ _ _ _ _ _ _ => true
+  | CaseCore _ _ leak => negb leak
+  | CaseSites _ sites => sites_known sites
   end.
 
 Definition mismatches (cs : list case) : list Z := map case_id (filter (fun c => negb (agrees c)) cs).
